@@ -187,10 +187,10 @@ Proof.
 Qed.
 
 (* a crash image is a start image: everything proved about histories from a start image holds again after the restart *)
-Theorem crash_image_ok c s : wreach c s -> node_ok (nd (fst (step c s EvCrash))).
+Theorem crash_image_ok lv c s : wreach lv c s -> node_ok (nd (fst (step c s EvCrash))).
 Proof.
-  intros Hw. destruct (wreach_inv c s Hw) as (_ & _ & _ & HN). cbn [step fst nd set_payrun]. unfold node_ok, busy, hot. cbn [payrun parts ds].
-  split; [reflexivity|]. split; [intros H; apply (ni_wa s HN); left; exact H|exact (ni_ng s HN)].
+  intros Hw. destruct (wreach_inv lv c s Hw) as (_ & _ & _ & HN). cbn [step fst nd set_payrun]. unfold node_ok, busy, hot. cbn [payrun parts ds].
+  split; [reflexivity|]. split; [intros H; apply (ni_wa lv s HN); left; exact H|exact (ni_ng lv s HN)].
 Qed.
 
 (* umbrella: from ANY start image with no part pending, a cooperative environment settles a funded set — or, when the
